@@ -146,7 +146,8 @@ fn scenario(cfg: &RunCfg) -> Outcome {
             1 => OnReady::Drop,
             2 => OnReady::Panic,
             3 => OnReady::GetBodyAgain(m),
-            _ => OnReady::Respond,
+            // the application keeps a clone of the request body after answering
+            _ => OnReady::RespondKeepingClone,
         };
         let code = if gen::ratio(1, 4) { 500 } else { 200 };
         let r = Req {
@@ -452,7 +453,7 @@ pub fn spec() -> PropertySpec {
     PropertySpec {
         id: "C10",
         level: "fault_enumeration",
-        rule: "Each run: the real server with a real per-run cache directory (tmpfs) and 1-4 concurrent uploads (declared and undeclared length above the in-memory threshold, 65 B .. 150 KiB) whose life is cut by a fault sequence drawn from: client FIN / RST / abrupt close at an offset class {0, 1, half, 8191..8193, 65535..65537, L-1, L, L+1}; disk write failure (ENOSPC, EIO) at an offset, close failure, create failure, short writes; body over the handler's limit; handler outcome after receipt {normal, 5xx, drop, panic, fetch-body-again}; cache directory removed at a tape-chosen step; permit revoked mid-upload; connection-task cancellation at a tape-chosen step (only destructors run). Oracle reads the REAL directory: per-step invariant (a file may exist only while some request is still being received or handled) and, once every connection has closed, an empty directory; destructor panics are task panics. Second stage: uploads answered with Response::event_stream() whose sender the application keeps (an answer that never finishes): as soon as every client holds the complete response head, and again idle at quiescence after clients stayed / closed / reset on the silent stream, the directory must be empty. non-trivial = a temp file existed during the run.",
+        rule: "Each run: the real server with a real per-run cache directory (tmpfs) and 1-4 concurrent uploads (declared and undeclared length above the in-memory threshold, 65 B .. 150 KiB) whose life is cut by a fault sequence drawn from: client FIN / RST / abrupt close at an offset class {0, 1, half, 8191..8193, 65535..65537, L-1, L, L+1}; disk write failure (ENOSPC, EIO) at an offset, close failure, create failure, short writes; body over the handler's limit; handler outcome after receipt {normal, 5xx, drop, panic, fetch-body-again, normal while the application keeps a clone of the request body}; cache directory removed at a tape-chosen step; permit revoked mid-upload; connection-task cancellation at a tape-chosen step (only destructors run). Oracle reads the REAL directory: per-step invariant (a file may exist only while the server still holds an open connection - after a harness-injected task cancellation also while a handler job is still running) and, once every connection has closed, an empty directory; destructor panics are task panics. Second stage: uploads answered with Response::event_stream() whose sender the application keeps (an answer that never finishes): as soon as every client holds the complete response head, and again idle at quiescence after clients stayed / closed / reset on the silent stream, the directory must be empty. non-trivial = a temp file existed during the run.",
         scenarios: vec![Scenario { name: "c10.uploads", property: "C10", func: scenario, runs_quick: 250_000, runs_thorough: 6_000_000, doc: "interrupted uploads" },
             Scenario { name: "c10.stream_answer", property: "C10", func: stream_answer, runs_quick: 60_000, runs_thorough: 1_500_000, doc: "uploads answered with an endless event stream; the client stays, leaves or resets" },
         ],
